@@ -52,7 +52,8 @@ ASSUMPTIONS = ['the interpreter (this file) uses genuine try/except/with stateme
                'known finding K9 (second force_reraise on one capture) excuses only the identity of an '
                'object produced by such a second force_reraise, by an input-only predicate',
                'remove_path_on_error with non-Exception BaseExceptions is DONT-CARE (observed, not asserted)']
-SHARDS = {'quick': 1, 'thorough': 16}
+INTERPRETER_FLAGS = [[], ['-O'], [], ['-bb']]
+SHARDS = {'quick': 4, 'thorough': 16}
 MIN_DISTINCT = {'quick': 5000, 'thorough': 100000}
 
 k9_applies = model.k9_applies      # input-only predicate named in known_findings.json
